@@ -377,6 +377,12 @@ def check(ctx, R):
     R.run("C18.e", rule_e, ctx)
     R.run("C18.g", rule_g, ctx)
     R.run("C18.h", rule_h, ctx)
+    from . import shared as _sh
+    R.run("C18.i", lambda R, c: _sh.api_delegations(
+        R, c, "C18.i", _sh.AWARENESS_DELEGATIONS,
+        "R-PROV the thin methods of Awareness: the local-state methods address the entry of the document's own client id "
+        "(clean_local_state removes it, local_state_raw reads it, set_local_state stores the serialised state through "
+        "set_local_state_raw); meta / state read the entry of the client id they were asked for; iter walks the state table"), ctx)
     from . import c02 as _c02
     R.run("C18.f", lambda R, c: _c02.rule_f(R, c, "C18.f"), ctx)
     return {}
